@@ -171,6 +171,8 @@ def escapedComment(data: Union[bytes, str]) -> bytes:
     """
     Within comments the sequence C{-->} can be mistaken as the end of the comment.
     To ensure consistent parsing and valid output the sequence is replaced with C{--&gt;}.
+    The same is done for C{--!>} and for a leading C{>} or C{->}, which end a comment for
+    an HTML5 parser.
     Furthermore, whitespace is added when a comment ends in a dash. This is done to break
     the connection of the ending C{-} with the closing C{-->}.
 
@@ -181,7 +183,13 @@ def escapedComment(data: Union[bytes, str]) -> bytes:
     """
     if isinstance(data, str):
         data = data.encode("utf-8")
-    data = data.replace(b"-->", b"--&gt;")
+    # An HTML5 tokenizer also ends a comment at "--!>", and at ">" or "->" when
+    # they are the very first characters of the comment.
+    if data.startswith(b">"):
+        data = b"&gt;" + data[1:]
+    elif data.startswith(b"->"):
+        data = b"-&gt;" + data[2:]
+    data = data.replace(b"-->", b"--&gt;").replace(b"--!>", b"--!&gt;")
     if data and data[-1:] == b"-":
         data += b" "
     return data
